@@ -4,6 +4,7 @@
   Theorems describe the code WITH fixes/F5.diff; the pinned `MergeRemoteState` is refuted at the end.
 -/
 import AM.Model.Gossip
+import AM.Model.Frame
 
 namespace AM.Gossip
 open AM AM.AList
@@ -331,3 +332,42 @@ theorem old_agrees_without_failure (st : States) (ps : List Part) (h : ∀ p ∈
 example : (notifyMsg [("sil", [("a", 1)])] (.part ⟨"sil", .entries [("a", 3), ("b", 2)]⟩)) = [("sil", [("a", 3), ("b", 2)])] := by decide
 
 end AM.Gossip
+
+namespace AM.Frame
+
+theorem le32_decode (n : Nat) (h : n < 4294967296) :
+    n % 256 + 256 * (n / 256 % 256) + 65536 * (n / 65536 % 256) + 16777216 * (n / 16777216 % 256) = n := by
+  omega
+
+/-- **Atomic frames parse back.**  Whatever the number, sizes and order of the packets written to a shared
+    connection, if every frame is written in one piece the receiver reads exactly the packets that were sent. -/
+theorem decode_stream (frames : List (List Nat)) (hlen : ∀ p ∈ frames, p.length < 4294967296)
+    (fuel : Nat) (hf : frames.length ≤ fuel) :
+    decodeFrames fuel (streamOf frames) = some frames := by
+  induction frames generalizing fuel with
+  | nil => cases fuel <;> simp [streamOf, decodeFrames]
+  | cons p rest ih =>
+    cases fuel with
+    | zero => simp at hf
+    | succ fuel =>
+      have hp := hlen p (by simp)
+      have hrest : ∀ q ∈ rest, q.length < 4294967296 := fun q hq => hlen q (by simp [hq])
+      have ih' := ih hrest fuel (by simp at hf; omega)
+      simp only [streamOf, List.flatMap_cons, encodeFrame, le32, List.cons_append, List.nil_append, decodeFrames]
+      rw [le32_decode p.length hp]
+      have hnl : ¬ (p ++ List.flatMap encodeFrame rest).length < p.length := by
+        simp only [List.length_append]; omega
+      simp only [hnl, if_false, List.drop_left, List.take_left]
+      have : List.flatMap encodeFrame rest = streamOf rest := rfl
+      rw [this, ih']
+      rfl
+
+/-- Writing the length and the message in two separate writes lets two senders interleave: the receiver then
+    reads garbage (here: it takes the second length field for message bytes and loses the framing). -/
+theorem split_frames_interleave_breaks :
+    ∃ s : List Nat, s = le32 2 ++ le32 1 ++ [7, 8] ++ [9] ∧ decodeFrames 10 s ≠ some [[7, 8], [9]] :=
+  ⟨_, rfl, by decide⟩
+
+example : decodeFrames 5 (streamOf [[1, 2, 3], [], [4]]) = some [[1, 2, 3], [], [4]] := by decide
+
+end AM.Frame
